@@ -153,6 +153,32 @@ fn main() {
     for _ in 0..count {
         if let Err(w) = one(&mut rng, &mut sessions, &mut byvalue) { println!("MISMATCH {}", w); std::process::exit(1); }
     }
+    // constructors with an item type whose default is not the all-zero pattern: every slot of a `default` buffer holds the default
+    {
+        use mutringbuf::{ConcurrentHeapRB, LocalHeapRB, HeapSplit};
+        #[derive(Clone, Copy, PartialEq, Debug)] struct D7(u32);
+        impl Default for D7 { fn default() -> Self { D7(0x5A5A_5A5A) } }
+        #[cfg(not(feature = "vmem"))]
+        for n in [1usize, 2, 3, 7, 64] {
+            let b = ConcurrentHeapRB::<D7>::default(n); let (mut p, _c) = b.split();
+            if p.buf_len() != n { println!("MISMATCH ConcurrentHeapRB::default({}): length {}", n, p.buf_len()); std::process::exit(1); }
+            if n > 1 { let ok = unsafe { p.get_next_slices_mut(n - 1) }.map(|(h, t)| h.iter().chain(t.iter()).all(|x| *x == D7::default())).unwrap_or(false);
+                       if !ok { println!("MISMATCH ConcurrentHeapRB::default({}): not every slot holds T::default()", n); std::process::exit(1); } }
+            let b = LocalHeapRB::<D7>::default(n); let (mut p, _c) = b.split();
+            if n > 1 { let ok = unsafe { p.get_next_slices_mut(n - 1) }.map(|(h, t)| h.iter().chain(t.iter()).all(|x| *x == D7::default())).unwrap_or(false);
+                       if !ok || p.buf_len() != n { println!("MISMATCH LocalHeapRB::default({}): length {} / not every slot holds T::default()", n, p.buf_len()); std::process::exit(1); } }
+        }
+        #[cfg(not(feature = "vmem"))]
+        {
+            let mut b = ConcurrentStackRB::<D7, N>::default(); let (mut p, _c) = b.split();
+            let ok = unsafe { p.get_next_slices_mut(N - 1) }.map(|(h, t)| h.iter().chain(t.iter()).all(|x| *x == D7::default())).unwrap_or(false);
+            if !ok || p.buf_len() != N { println!("MISMATCH ConcurrentStackRB::default(): length {} / not every slot holds T::default()", p.buf_len()); std::process::exit(1); }
+            let mut b = LocalStackRB::<D7, N>::from([D7(1), D7(2), D7(3), D7(4), D7(5)]); let (mut p, _c) = b.split();
+            let got: Vec<u32> = unsafe { p.get_next_slices_mut(N - 1) }.map(|(h, t)| h.iter().chain(t.iter()).map(|x| x.0).collect()).unwrap_or_default();
+            if got != vec![1, 2, 3, 4] { println!("MISMATCH LocalStackRB::from([1,2,3,4,5]): the producer's window reads {:?}", got); std::process::exit(1); }
+        }
+        sessions += 1;
+    }
     for _ in 0..24 {
         if let Err(w) = boxed_stack_release(&mut rng) { println!("MISMATCH {}", w); std::process::exit(1); }
         sessions += 1;
